@@ -195,6 +195,7 @@ func registerIntrinsics(e *Engine) {
 	registerLib(e)
 	registerTime(e)
 	registerStats(e)
+	registerStr(e)
 }
 
 func (e *Engine) fieldCell(p Ptr, t types.Type, path ...string) Ptr {
